@@ -10,7 +10,7 @@ model starts from the parsed rule trees; `_combine_acl_text` is modelled as the 
 those trees and compared with the real parse of the real combined text on every run); rule rows are matched by
 `Model/Pattern.lean` (C07); the assertion of `PartialGenerator.__call__` that no row contains the word `None`,
 `JuniperList`/`GenStringable` values, RefGenerators, annotations, `acl_safe`, perf measurement, tracing, implicit rules
-and filter ACLs are not modelled; `C10_yield_paths_partial` is stated for `CommonFormatter.split` (the Huawei and
+and filter ACLs are not modelled; `C10_yield_paths` is stated for `CommonFormatter.split` (the Huawei and
 remove-spaces splitters of `Model/Gen.lean` are tied by the correspondence only).
 -/
 import AnnetModel.Lemmas.GenPaths
@@ -19,9 +19,11 @@ import AnnetModel.Lemmas.GenStrip
 import AnnetModel.Lemmas.GenAssoc
 
 /-! OBLIGATIONS
-Annet.Gen.C10_yield_paths_partial
-Annet.Gen.C10_yield_paths_false_leading_blank
+Annet.Gen.C10_yield_paths
 Annet.Gen.C10_first_line_at_block_column
+Annet.Gen.C10_single_line_yield_wf
+Annet.Gen.C10_yield_wf_of_first_text
+Annet.Gen.C10_yield_paths_old_rule_false
 Annet.Gen.C10_layout_offside
 Annet.Gen.C10_tree_lines
 Annet.Gen.C10_fatal_iff_uncovered
@@ -46,12 +48,17 @@ open Annet.Implicit.Spec (NoDupKeys)
 
 /-! ### every yielded line appears under the block path it was yielded in -/
 
-/-- A program whose layout is well formed (every yield's first significant line starts at the block's column —
-true of every multi-line yield, because `_split_and_strip` strips it, and of every single-line yield without a leading
-blank —, block headers are single significant lines, block indents are non-empty blanks) runs without raising, and its
-output parses to exactly the tree of the specified paths: block path, then the line's own path inside its yield.  It
-is refused (`ParserError`) iff some yield is inconsistently indented in itself. -/
-theorem C10_yield_paths_partial (ops : List Op) (prog : List LOp) (hl : toLayoutL ops = some prog)
+/-- A program whose layout is well formed runs without raising, and its output parses to exactly the tree of the
+specified paths: block path, then the line's own path inside its yield.  It is refused (`ParserError`) iff some
+yield is inconsistently indented in itself.
+
+Well formed (`WFL`) means: block headers are single significant lines, block indents are non-empty blanks, and every
+yield's first significant line starts at the block's column with no `#`-in-column-0 line in it.  Since fix e9aec0a
+(`_split_and_strip` strips single-line texts too) the last condition holds for *every* single-line yield, whatever
+blanks it starts or ends with (`C10_single_line_yield_wf`), and for every multi-line yield whose first line is
+significant (`C10_yield_wf_of_first_text`); it can fail only for a yield that contains a line starting with `#` in
+column 0 (a Huawei section end for the parser) or whose first line is a comment followed by an indented line. -/
+theorem C10_yield_paths (ops : List Op) (prog : List LOp) (hl : toLayoutL ops = some prog)
     (hw : WFL prog = true) :
     ∃ rows, runGen ops = some rows ∧
       (parseToTree comments (split .common rows)).toOption = (specPathsL [] prog).map treeOfStacks :=
@@ -62,36 +69,38 @@ def okPaths (r : Except Nat Cfg) : List (List String) :=
   | .ok c => c.paths
   | .error _ => []
 
-/-- Without the well-formedness hypothesis the statement is false of the code (F10a): a single-line yield that starts
-with a blank, after another line of the same block, is parsed as a child of that line — only multi-line yields are
-stripped by `_split_and_strip`. -/
-theorem C10_yield_paths_false_leading_blank :
-    ¬ ∀ (ops : List Op) (prog : List LOp), toLayoutL ops = some prog →
-        ∃ rows, runGen ops = some rows ∧
-          (parseToTree comments (split .common rows)).toOption = (specPathsL [] prog).map treeOfStacks := by
-  intro h
-  obtain ⟨rows, hr, hp⟩ := h
-    [.block [.str "interface Eth1"] none [.yieldStr "mtu 9000", .yieldStr " description x"]]
-    [.block "interface Eth1" 2 [.emit [.text 0 "mtu 9000"], .emit [.text 1 "description x"]]] rfl
-  have hrows : runGen [.block [.str "interface Eth1"] none [.yieldStr "mtu 9000", .yieldStr " description x"]] =
-      some ["interface Eth1", "  mtu 9000", "   description x"] := by decide
-  rw [hrows] at hr
-  cases hr
-  have := congrArg (Option.map Cfg.paths) hp
-  revert this
-  decide
+/-- What `_split_and_strip` guarantees for every yield: the first row has no leading whitespace, so if the first
+line is significant it starts at the block's column. -/
+theorem C10_first_line_at_block_column (text : String) :
+    ∃ i rest, ownItems text = i :: rest ∧ ∀ k s, i = .text k s → k = 0 :=
+  Lemmas.ownItems_first_column text
 
-/-- What `_split_and_strip` guarantees: if the first line of a yield is significant it starts at the block's
-column (the well-formedness hypothesis of `C10_yield_paths_partial`) — for every multi-line yield, because the
-dedented text is stripped as a whole, and for every single-line yield that does not start with a blank or tab.  So
-the hypothesis can only fail for a single-line yield with a leading blank (F10a), for a yield whose first line is a
-comment followed by an indented line, or for a line starting with `#` in column 0. -/
-theorem C10_first_line_at_block_column (text : String)
-    (h : text.toList.contains '\n' = true ∨ ∀ c, text.toList.head? = some c → pyIsSpace c = false) :
-    match ownItems text with
-    | .text k _ :: _ => k = 0
-    | _ => True :=
-  Lemmas.ownItems_first_column text h
+/-- Every single-line yield — with any leading or trailing blanks — satisfies the yield condition of
+`C10_yield_paths`, unless it is a `#`-in-column-0 line. -/
+theorem C10_single_line_yield_wf (text : String) (h : text.toList.contains '\n' = false) :
+    OwnOk (ownItems text) = true ↔ ownItems text ≠ [.sectionEnd] :=
+  Lemmas.ownOk_single text h
+
+/-- Every yield (multi-line included) whose first line is significant and that has no `#`-in-column-0 line
+satisfies the yield condition of `C10_yield_paths`. -/
+theorem C10_yield_wf_of_first_text (text : String) (hse : (ownItems text).all (· != .sectionEnd) = true)
+    (hfirst : (ownItems text).head? ≠ some .blank) : OwnOk (ownItems text) = true :=
+  Lemmas.ownOk_of_first_text text hse hfirst
+
+/-- The rule `_split_and_strip` had before fix e9aec0a (`Spec.splitAndStripOld`: a single-line text is one row,
+verbatim) made the statement false (F10a): `yield " description x"` after `yield "mtu 9000"` inside
+`block("interface Eth1")` was one column right of the block's column — a layout that is not well formed, which the
+parser reads as a child of `mtu 9000` instead of the specified `interface Eth1 / description x`.  Under the current
+rule the same yield starts at the block's column. -/
+theorem C10_yield_paths_old_rule_false :
+    ownItemsOld " description x" = [.text 1 "description x"] ∧
+    ownItems " description x" = [.text 0 "description x"] ∧
+    (let prog : List LOp := [.block "interface Eth1" 2 [.emit (ownItemsOld "mtu 9000"), .emit (ownItemsOld " description x")]]
+     WFL prog = false ∧
+     specPathsL [] prog = some [["interface Eth1"], ["interface Eth1", "mtu 9000"], ["interface Eth1", "description x"]] ∧
+     (stacks (layoutL 0 prog)).toOption =
+       some [["interface Eth1"], ["interface Eth1", "mtu 9000"], ["interface Eth1", "mtu 9000", "description x"]]) := by
+  decide
 
 /-- The layout theorem on items, for any columns: the stack machine of the offside parser gives every line of a well
 formed layout the path `block path ++ own path`. -/
@@ -272,7 +281,7 @@ def exOps : List Op :=
    .yieldStr "vlan 10"]
 
 /-- a program with a tuple yield, a multi-line yield, a skipped `block_if`, a `multiblock` and a comment: its layout
-exists and is well formed (hypotheses of `C10_yield_paths_partial`), and the specified paths are the expected ones -/
+exists and is well formed (hypotheses of `C10_yield_paths`), and the specified paths are the expected ones -/
 example : (toLayoutL exOps).map WFL = some true ∧
     (toLayoutL exOps).bind (specPathsL []) = some
       [["interface Eth1"], ["interface Eth1", "mtu 9000"], ["interface Eth1", "ip address 10.0.0.1"],
@@ -285,6 +294,19 @@ three-way merge in first-seen order -/
 example : NoDupKeys (treeOfStacks [["a"], ["a", "b"], ["c"], ["a", "d"]]) := Lemmas.nodup_treeOfStacks _
 example : (merge (merge (treeOfStacks [["a", "x"], ["b"]]) (treeOfStacks [["c"], ["a", "y"]])) (treeOfStacks [["a", "x", "z"]])).paths
     = [["a"], ["a", "x"], ["a", "x", "z"], ["a", "y"], ["b"], ["c"]] := by decide
+
+/-- single-line yields and a block header with leading / trailing blanks and tabs are well formed and land under
+their block path (the F10a input of the old rule) -/
+example :
+    let ops : List Op := [.block [.str " interface", .str "Eth1 "] none
+      [.yieldStr "mtu 9000", .yieldStr " description x", .yieldTuple [.str "\tshutdown", .str " "], .yieldStr "   ! c"]]
+    (toLayoutL ops).map WFL = some true ∧
+    (toLayoutL ops).bind (specPathsL []) = some
+      [["interface Eth1"], ["interface Eth1", "mtu 9000"], ["interface Eth1", "description x"],
+       ["interface Eth1", "shutdown"]] ∧
+    (runGen ops).map (fun rows => okPaths (parseToTree comments (split .common rows))) = some
+      [["interface Eth1"], ["interface Eth1", "mtu 9000"], ["interface Eth1", "description x"],
+       ["interface Eth1", "shutdown"]] := by decide
 
 /-- a `None` token makes the generator raise; an inconsistently indented multi-line yield is refused by the parser -/
 example : runGen [.yieldTuple [.str "mtu", .none]] = none ∧
